@@ -6,6 +6,7 @@
 //! exit codes: 0 property held on everything explored; 1 violation (VIOLATION line printed);
 //!             2 harness error (never reported as a violation)
 
+mod asyncstore;
 mod chain;
 mod checks;
 mod density;
@@ -13,6 +14,7 @@ mod driver;
 mod entropy;
 mod gen_sched;
 mod prng;
+mod props_adapt;
 mod props_chain;
 mod props_fault;
 mod props_mclmc;
